@@ -913,6 +913,13 @@ func getIntHash(next *[]PathNode, key uint64, N int) *PathNode {
 	return nil
 }
 
+// setNode replaces the value of an existing child: children loaded from the
+// old value no longer describe it, so they are dropped (marshal uses Next when it is not empty)
+func (self *PathNode) setNode(val Node) {
+	self.Node = val
+	self.Next = self.Next[:0]
+}
+
 // GetByInt get the child node by string. Only support MAP with string-type key.
 //
 // If opts.StoreChildrenByHash is true, it will try to use hash (O(1)) to search the key.
@@ -964,7 +971,7 @@ func (self *PathNode) SetByStr(key string, val Node, opts *Options) (bool, error
 		// TODO: cap may change after Set. Use better way to store hash size
 		if cap(self.Next) >= N {
 			if s := getStrHash(&self.Next, key, N); s != nil {
-				s.Node = val
+				s.setNode(val)
 				return true, nil
 			}
 		}
@@ -973,7 +980,7 @@ func (self *PathNode) SetByStr(key string, val Node, opts *Options) (bool, error
 	for i := range self.Next {
 		v := &self.Next[i]
 		if v.Path.t == PathStrKey && v.Path.str() == key {
-			v.Node = val
+			v.setNode(val)
 			return true, nil
 		}
 	}
@@ -1034,7 +1041,7 @@ func (self *PathNode) SetByInt(key int, val Node, opts *Options) (bool, error) {
 		N := n * 2
 		if cap(self.Next) >= N {
 			if s := getIntHash(&self.Next, uint64(key), N); s != nil {
-				s.Node = val
+				s.setNode(val)
 				return true, nil
 			}
 		}
@@ -1043,7 +1050,7 @@ func (self *PathNode) SetByInt(key int, val Node, opts *Options) (bool, error) {
 	for i := range self.Next {
 		v := &self.Next[i]
 		if v.Path.t == PathIntKey && v.Path.int() == key {
-			v.Node = val
+			v.setNode(val)
 			return true, nil
 		}
 	}
@@ -1105,14 +1112,14 @@ func (self *PathNode) SetField(id thrift.FieldID, val Node, opts *Options) (bool
 	for i := StoreChildrenByIdShreshold; i < len(self.Next); i++ {
 		v := &self.Next[i]
 		if v.Path.t == PathFieldId && v.Path.id() == id {
-			v.Node = val
+			v.setNode(val)
 			return true, nil
 		}
 	}
 	for i := 0; i < len(self.Next) && i < StoreChildrenByIdShreshold; i++ {
 		v := &self.Next[i]
 		if v.Path.t == PathFieldId && v.Path.id() == id {
-			v.Node = val
+			v.setNode(val)
 			return true, nil
 		}
 	}
